@@ -237,7 +237,14 @@ C27_Pool ==
           /\ PoolGain = PriceOf -- TickerPart
           /\ CreatesTicker => Bal(st', "zero", Base) -- Bal(st, "zero", Base) = TickerPart,
           [at |-> WhereTx, expected |-> PriceOf -- TickerPart, gain |-> PoolGain, ticker |-> TickerPart])
-C27_Step == C27_Amount /\ C27_Pool
+\* a rejected delivery is charged gas price x (failed-transaction price + bytes x byte price), capped at the payer's balance
+C27_Failed ==
+   Clause("C27", "FailureFeeFromPriceTable", Delivered /\ Code # 0 /\ BaseGas /\ BasePriced /\ Tx.intact,
+          LET paid == Bal(st, Payer, Base) -- Bal(st', Payer, Base)
+          IN /\ paid = Zero \/ paid = AMin(Bal(st, Payer, Base), FailPriceOf)
+             /\ st'.rewardPool -- st.rewardPool = paid,
+          [at |-> WhereTx, paid |-> Bal(st, Payer, Base) -- Bal(st', Payer, Base), expected |-> FailPriceOf, gasPrice |-> Tx.gasPrice, bytes |-> Tx.bytes])
+C27_Step == C27_Amount /\ C27_Pool /\ C27_Failed
 
 \* ======================================================================== all step clauses of the ledger family
 \* ======================================================================== C09 / C10 / C29 (twin scenarios)
